@@ -212,10 +212,10 @@ func (c *compiler) sortDescriptors() {
 		m := m
 		// Sort signals by start (and multiplexer value)
 		sort.Slice(m.Signals, func(j, k int) bool {
-			if m.Signals[j].MultiplexerValue < m.Signals[k].MultiplexerValue {
-				return true
+			if m.Signals[j].Start != m.Signals[k].Start {
+				return m.Signals[j].Start < m.Signals[k].Start
 			}
-			return m.Signals[j].Start < m.Signals[k].Start
+			return m.Signals[j].MultiplexerValue < m.Signals[k].MultiplexerValue
 		})
 		// Sort value descriptions by value
 		for _, s := range m.Signals {
